@@ -76,6 +76,10 @@ SIMPLE = [
     # an argument that is given but empty is still an argument: "command:" 
     ('erase_empty', 'erase:', lambda c, cb: c.erase(''), False, False),
     ('getvar_empty', 'getvar:', lambda c, cb: c.get_var('', info_cb=cb), True, True),
+    # commands longer than one 64-byte fastboot response: still one packet
+    ('oem_long', 'oem ' + 'setprop persist.x ' * 4, lambda c, cb: c.oem('setprop persist.x ' * 4, info_cb=cb), True, True),
+    ('getvar_64', 'getvar:' + 'v' * 57, lambda c, cb: c.get_var('v' * 57, info_cb=cb), True, True),
+    ('getvar_65', 'getvar:' + 'v' * 58, lambda c, cb: c.get_var('v' * 58, info_cb=cb), True, True),
 ]
 
 SIMPLE_ALPHA = ['INFOa', 'INFO', 'OKAY', 'OKAYxy', 'DATA00000001', 'FAILboom',
